@@ -143,6 +143,7 @@ class Handler:
     body_fn: str                     # w::h / w::h_o / w::h_r / w::ah / w::ah_r
     pre: str = ''                    # nested invocation evaluated inside the handler body (macro form)
     pre_ref: str = ''
+    path_form: bool = False          # handler written as a multi-segment function path: `map => w::hf2::<ev, _, _>`
     def_ev: Optional[int] = None     # handler written as a block `{ w::cap(ev); |..| .. }`: the handler EXPRESSION is evaluated once, up front
 
 
@@ -1213,6 +1214,9 @@ def gen_handler(ctx, inv, n_branches):
     ctx.evs.append(EvMeta(e, 'Handler', failable, inv.inv, CALLER, STEP_HANDLER))
     pos = ctx.rng.randint(0, n_branches) if ctx.chance(p.get('handler_anywhere', 0.3)) else n_branches
     h = Handler(kind, e, pos, fn)
+    if n_branches <= 5 and ctx.chance(p.get('handler_path', 0.25)):
+        h.path_form = True
+        return h
     if ctx.chance(p.get('handler_block', 0.3)):
         # the handler expression itself is user code: evaluated exactly once, before step 0, also when a step fails
         de = ctx.next_ev
@@ -1371,10 +1375,19 @@ def branch_macro(inv, b):
     return s
 
 
+PATH_HANDLER = {'w::h': 'hf', 'w::h_o': 'hfo', 'w::h_r': 'hfr', 'w::ah': 'ahf', 'w::ah_r': 'ahfr'}
+
+
+def path_handler(h, n):
+    return 'w::%s%d::<%d, %s>' % (PATH_HANDLER[h.body_fn], n, h.ev, ', '.join('_' for _ in range(n)))
+
+
 def handler_macro(inv, h):
     n = len(inv.branches)
     params = ', '.join('a%d' % i for i in range(n))
     args = ', '.join('w::dg(&a%d)' % i for i in range(n))
+    if h.path_form:
+        return '%s => %s' % (h.kind, path_handler(h, n))
     clos = '|%s| { %s%s(%d, &[%s]) }' % (params, h.pre, h.body_fn, h.ev, args)
     if h.def_ev is not None:
         return '%s => { w::cap(%d); %s }' % (h.kind, h.def_ev, clos)
@@ -1477,9 +1490,13 @@ def ref_expr(inv, top=False):
         L.append('let (%s) = (%s);' % (', '.join('a%d' % i for i in range(n)) + (',' if n == 1 else ''), ', '.join(un) + (',' if n == 1 else '')))
         args = ', '.join('w::dg(&a%d)' % i for i in range(n))
         call = '%s(%d, &[%s])' % (h.body_fn, h.ev, args)
+        if h.path_form:
+            call = '%s(%s)' % (path_handler(h, n), ', '.join('a%d' % i for i in range(n)))
         hpre = h.pre_ref if isinstance(h.pre_ref, str) else 'let _n = %s; ' % ref_expr(h.pre_ref)
         body = '{ %s%s }' % (hpre, call)
-        if A and h.body_fn in ('w::ah', 'w::ah_r'):
+        if A and h.body_fn in ('w::ah', 'w::ah_r') and h.path_form:
+            hv = 'w::aseg(&%s, %d, %d, async { (%s).await }).await' % (ig, CALLER, STEP_HANDLER, body)
+        elif A and h.body_fn in ('w::ah', 'w::ah_r'):
             hv = 'w::aseg(&%s, %d, %d, async { let __g = %s; drop((%s)); __g.await }).await' % (ig, CALLER, STEP_HANDLER, body, ', '.join('a%d' % i for i in range(n)) + (',' if n == 1 else ''))
         else:
             hv = 'w::seg(&%s, %d, %d, || %s)' % (ig, CALLER, STEP_HANDLER, body)
